@@ -178,7 +178,7 @@ def run_check(prop, tier, base, mod, workers=None, n_runs=None, deadline=None):
                 known_hits.setdefault(kf['what'], 0)
                 known_hits[kf['what']] += 1
                 continue
-            key = util.canon(sig)
+            key = util.canon(mod.dedup_key(sig))
             if key in seen_sig or len(reported) >= 5:
                 continue
             seen_sig.add(key)
